@@ -1,7 +1,7 @@
 import PPModel.Base.Sexp
 import PPModel.Mod.PR
 import PPModel.Mod.PRHeap
-namespace PP.Driver
+namespace PP.Driver.PRD
 open PP PP.Sexp PP.PR PP.PyList
 
 /-! Driver for the `ParseResults` model; values are opaque S-expressions (`α := Sexp`).
@@ -152,4 +152,8 @@ def prHandle : List Sexp → Option Sexp
       | .ok s => pure (.list (.list (.atom "start" :: stateViews s) :: runHist s ops))
   | _ => none
 
+end PP.Driver.PRD
+
+namespace PP.Driver
+def prHandle := PRD.prHandle
 end PP.Driver
